@@ -65,10 +65,15 @@ struct Explorer {
         Q q = rel::rebuild<Q>(nd.r.data());
         const Q before = q;
         op.compound(q);
-        std::array<T, 9> model = nd.r;
-        op.model(model.data(), N);
         T got[9];
         vf::comps(q, got);
+        std::array<T, 9> model = nd.r;
+        // an operation without a plain-number model (a number operand of another numeric type: the statement does not say in
+        // which type the arithmetic happens) is judged by compound == pure operator alone
+        if (op.model)
+          op.model(model.data(), N);
+        else
+          for (int i = 0; i < N; i++) model[i] = got[i];
         transitions++;
         bool finite = true;
         for (int i = 0; i < N; i++) finite = finite && std::isfinite(model[i]);
@@ -165,6 +170,36 @@ void add_times_divide(Explorer<Q>& ex, bool times) {
     };
     ex.ops.push_back(op);
   }
+}
+
+// scaling by a plain number of ANOTHER arithmetic type (a double for a float object, a long double for a double object, an
+// int): whatever conversion the library applies, x *= n and x = x * n (x /= n and x = x / n) must leave the same value
+template <class Q, class N2>
+void add_times_divide_other_type(Explorer<Q>& ex, const char* tname, N2 x) {
+  for (int times = 0; times < 2; times++) {
+    Op<Q> op;
+    op.name = std::string(times ? "*=" : "/=") + tname;
+    op.compound = [x, times](Q& q) {
+      if (times) q *= x; else q /= x;
+    };
+    op.pure = [x, times](const Q& q, Q& out) {
+      if constexpr (std::is_same_v<std::decay_t<decltype(q * x)>, Q> && std::is_same_v<std::decay_t<decltype(q / x)>, Q>) {
+        out = times ? (q * x) : (q / x);
+        return true;
+      } else {
+        return false;
+      }
+    };
+    ex.ops.push_back(op);
+  }
+}
+template <class Q>
+void add_other_number_types(Explorer<Q>& ex) {
+  using T = numof<Q>;
+  if constexpr (!std::is_same_v<T, float>) add_times_divide_other_type<Q, float>(ex, "float 1.1f", 1.1f);
+  if constexpr (!std::is_same_v<T, double>) add_times_divide_other_type<Q, double>(ex, "double 0.3", 0.3);
+  if constexpr (!std::is_same_v<T, long double>) add_times_divide_other_type<Q, long double>(ex, "long double 1/7", 1.0L / 7);
+  add_times_divide_other_type<Q, int>(ex, "int 3", 3);
 }
 
 // operands that alias the object itself: q += q, q -= q, and scaling by a reference to the object's own first component
@@ -295,6 +330,21 @@ void math_all(const char* qname) {
         for (T e : {(T)0.5, (T)-1.25, (T)2}) {
           vf::stat("math_evaluations");
           if (!vf::same_bits((T)std::pow(q, e), (T)std::pow(q.Value(), e))) vf::viol(std::string("math|") + qname + "|pow(real)|" + vf::TName<T>::value, "{\"x\":" + vf::jstr(vf::hex(x)) + "}");
+        }
+        // exponents of the other floating-point types (not representable in a narrower one): still exactly std::pow of the
+        // stored number and that exponent
+        auto other = [&](auto e, const char* et) {
+          if constexpr (HasPow<Q, decltype(e)>::value) {
+            vf::stat("math_evaluations");
+            if (!vf::same_bits((T)std::pow(q, e), (T)std::pow(q.Value(), e)))
+              vf::viol(std::string("math|") + qname + "|pow(" + et + " exponent)|" + vf::TName<T>::value, "{\"x\":" + vf::jstr(vf::hex(x)) + "}");
+          }
+        };
+        if (x > 0) {
+          other(0.3f, "float");
+          other(1.0 / 3.0, "double");
+          other(1.0L / 3.0L, "long double");
+          other(-1.7, "double");
         }
       }
       vf::setadd("math_overloads", std::string(qname) + ".pow");
